@@ -1,4 +1,5 @@
 """C14 - worst-case and gradient evaluators compute what they promise, stably (histories of batches)."""
+import gc
 import math
 from hypothesis import strategies as st
 
@@ -42,6 +43,11 @@ def batch_history(draw):
     s["batches"] = batches
     # optionally the objective fails transiently the first time it sees the k-th design (it is re-sampled and retried)
     s["fail_call"] = draw(st.one_of(st.none(), st.none(), st.integers(0, 12)))
+    # the caller keeps only the designs of the current batch (earlier ones are dropped and garbage-collected, as the
+    # rejected offspring of an NSGA-II generation are), and / or edits a parameter tolerance between two batches
+    s["forget"] = draw(st.sampled_from([False, False, True]))
+    s["retol"] = draw(st.one_of(st.none(), st.none(), st.tuples(
+        st.integers(1, 3), st.integers(0, s["n"] - 1), st.sampled_from([0.5, 0.125, 0.01, 2.0]))))
     return s
 
 
@@ -81,8 +87,13 @@ def check_worst_case(case):
     try:
         with guard("worst-case"):
             alg = GeneticAlgorithm(prob, evaluator_type=EvaluatorType.WORST_CASE)
-        seen = []   # (individual, children ids, children costs snapshot)
+        seen = []   # (individual, children ids, children costs snapshot, tolerances at evaluation time)
+        tol = list(s["tol"])
+        retol = s.get("retol")
         for bi, batch in enumerate(s["batches"]):
+            if retol and bi == retol[0]:
+                prob.parameters[retol[1]]["tol"] = retol[2]
+                tol[retol[1]] = retol[2]
             before = len(log)
             inds = [Individual(list(v)) for v in batch]
             with guard("worst-case"):
@@ -94,7 +105,7 @@ def check_worst_case(case):
                                 "batch %d of %d designs (n=%d) made %d objective calls, expected %d" % (
                                     bi, len(batch), n, calls, exp_calls))
             for ind in inds:
-                seen.append([ind, [id(c) for c in ind.children], None])
+                seen.append([ind, [id(c) for c in ind.children], None, list(tol)])
             for rec in seen:
                 ind = rec[0]
                 age = "new" if any(ind is i for i in inds) else "earlier"
@@ -111,12 +122,12 @@ def check_worst_case(case):
                 for i in range(n):
                     for sg in (-1, 1):
                         v = list(ind.vector)
-                        v[i] += sg * s["tol"][i]
+                        v[i] += sg * rec[3][i]
                         expv.append(v)
                 gotv = sorted(tuple(c.vector) for c in ch)
                 if gotv != sorted(tuple(v) for v in expv):
-                    raise Violation("worst-case", "children-positions", "design %r tol %r children %r" % (
-                        ind.vector, s["tol"], gotv))
+                    raise Violation("worst-case", "children-positions%s" % (":retol" if rec[3] != s["tol"] else ""),
+                                    "design %r tol %r children %r" % (ind.vector, rec[3], gotv))
                 fx = f(ind.vector)
                 if list(ind.costs[:m]) != fx:
                     raise Violation("worst-case", "user-costs-changed", "costs %r, f(x)=%r" % (ind.costs, fx))
@@ -140,10 +151,16 @@ def check_worst_case(case):
                     got = ind.costs[-1]
                     if not (isinstance(got, (int, float)) and got >= 0 and math.isfinite(got)):
                         raise Violation("worst-case", "sensitivity-domain", "extra cost %r" % (got,))
+            if s.get("forget"):
+                del seen[:], inds[:]
+                ind = rec = ch = c = None
+                del prob.individuals[:]
+                gc.collect()
     finally:
         dispose(prob)
     nb = len(s["batches"])
-    return {"nt": nb >= 2, "classes": ["batches%d" % nb, "m%d" % m, "n%d" % n]}
+    return {"nt": nb >= 2, "classes": ["batches%d" % nb, "m%d" % m, "n%d" % n] + (["forget"] if s.get("forget") else [])
+            + (["retol"] if retol and retol[0] < nb else [])}
 
 
 def check_gradient(case):
